@@ -351,6 +351,12 @@ theorem C20_no_space_run (s : List Char) (pre post : List Char) : normalizeText 
   rw [h, hasDbl_of_infix] at h1
   cases h1
 
+/-- the pieces of the normalised text between single spaces are exactly the kept words: the non-blank pieces of the input
+    between spaces / no-break spaces, trimmed (`normWords_spec`); a piece of white space only is not among them -/
+theorem C20_split_is_words (s : List Char) (h : normWords s ≠ []) : splitSp (normalizeText s) = normWords s := by
+  unfold normalizeText
+  exact splitSp_joinSp _ h (fun w hw => (normWords_spec s w hw).2.1)
+
 /-- normalisation keeps the words and their order: the maximal runs of non-white-space characters (Python's
     `str.split()`) of the result are those of the input, in the same order -/
 theorem C20_words (s : List Char) : wsWords (normalizeText s) = wsWords s := wsWords_normalizeText s
